@@ -1080,6 +1080,7 @@ pub fn run_random<C: OrdColl>(tr: &mut Trace, cfg: &RandCfg) {
     // handles the harness holds (handle, key it was taken for); dropped at every deletion / clear,
     // and (lists) at every insertion
     let mut held: Vec<(u32, i32)> = vec![];
+    let mut seg_no = 0u64;
     let mut in_seg = 0u64;
     let mut done = 0u64;
     while done < cfg.steps && !s.tr.full() {
@@ -1088,11 +1089,14 @@ pub fn run_random<C: OrdColl>(tr: &mut Trace, cfg: &RandCfg) {
             held.clear();
             in_seg = 0;
         }
-        if in_seg == 0 && cfg.keys >= 12 && s.snap_every <= 1 && rng.chance(1, 2) {
+        if in_seg == 0 {
+            seg_no += 1;
+        }
+        if in_seg == 0 && cfg.keys >= 12 && s.snap_every <= 1 && seg_no % 2 == 1 {
             // some segments start from a monotone fill: ascending / descending insertion gives the
             // longest spines a red-black tree can have, and a set is then walked end to end
             let mut ks: Vec<i32> = (1..=cfg.keys).collect();
-            if rng.chance(1, 2) {
+            if seg_no % 4 == 3 {
                 ks.reverse();
             }
             let n = rng.range(cfg.keys as i64 / 2, cfg.keys as i64) as usize;
